@@ -24,9 +24,9 @@ enum { L_Q, L_R, L_T };
 typedef struct letter { int kind, r, id, v; char name[40]; } letter;
 static letter LT[64]; static int nlt;
 #define NREQ 4                     /* A B C + filler D */
-static struct sockaddr_storage REQ[NREQ]; static socklen_t RLEN;
+static struct sockaddr_storage REQ[NREQ]; static socklen_t RLENS[NREQ], RLEN;   /* requester C asks over IPv6 */
 static struct sockaddr_storage LOCALDNS;
-static const char *REQN[NREQ] = { "A", "B", "C", "D" };
+static const char *REQN[NREQ] = { "A", "B", "C(IPv6)", "D" };
 static const struct { const char *name; int type; } QN[2] = { { "www.other.org", 1 }, { "Mail.Foo-bar.net", 15 } };
 
 static void addl(int kind, int r, int id, int v, const char *fmt, ...)
@@ -77,7 +77,7 @@ static int apply(int li)
 	if (L->kind == L_Q) {
 		if (M.n >= MAXM) return 1;
 		plen = mk_fwd_query(pkt, L->id, L->v);
-		adv_send(&REQ[L->r], RLEN, pkt, plen);
+		adv_send(&REQ[L->r], RLENS[L->r], pkt, plen);
 		M.e[M.n].r = L->r; M.e[M.n].id = L->id; M.n++;
 		/* exactly one datagram, to the local DNS port, same id / name / type */
 		int nf = 0;
@@ -111,6 +111,7 @@ static int apply(int li)
 			int r = req_of(&o->dst);
 			if (o->kind == 3 || r < 0) { viol("reply-caused-other-output", "%s caused a %s to %s", L->name, o->kind == 3 ? "tun write" : "datagram", vw_addr_str(&o->dst)); continue; }
 			ndeliv++; delivered_to = r;
+			if (o->kind != (REQ[r].ss_family == AF_INET6 ? 1 : 0)) viol("reply-sent-from-wrong-socket", "%s: reply for %s left through socket kind %d", L->name, REQN[r], o->kind);
 			if (o->full_len != plen || memcmp(o->data, pkt, plen)) viol("reply-modified", "%s: reply relayed to %s with different bytes (%d vs %d)", L->name, REQN[r], o->full_len, plen);
 		}
 		if (nc == 0) {
@@ -128,7 +129,7 @@ static int apply(int li)
 	} else {
 		char s[] = "zabcAbC09";
 		plen = tm_query(pkt, sizeof pkt, 77, 10, s, (int)strlen(s), DOM, 0);
-		adv_send(&REQ[0], RLEN, pkt, plen);
+		adv_send(&REQ[0], RLENS[0], pkt, plen);
 		int na = 0;
 		for (int i = 0; i < adv_nout; i++) {
 			adv_out *o = &adv_outs[i];
@@ -166,13 +167,13 @@ static void boot(int st)
 	W.hooks.on_sanitizer = on_san;
 	W.hooks.snap_regions = snap_regions;
 	memset(&M, 0, sizeof M);
-	adv_boot(&c, 0, 1);
+	adv_boot(&c, 1, 1);
 	/* filler queries from a fourth requester with distinct ids */
 	for (int k = 0; k < PREFILL[st]; k++) {
 		uint8_t pkt[700];
 		int plen = mk_fwd_query(pkt, 100 + k, k & 1);
 		adv_clear();
-		adv_send(&REQ[3], RLEN, pkt, plen);
+		adv_send(&REQ[3], RLENS[3], pkt, plen);
 		M.e[M.n].r = 3; M.e[M.n].id = 100 + k; M.n++;
 	}
 	adv_clear();
@@ -199,8 +200,8 @@ int main(int argc, char **argv)
 	hc_args a = hc_parse(argc, argv, "fwd");
 	int depth = 0;
 	for (int i = 0; i < a.nextra; i++) if (!strcmp(a.extra[i], "--depth") && i + 1 < a.nextra) depth = atoi(a.extra[++i]);
-	vw_mkaddr(&REQ[0], &RLEN, "198.51.100.7", 4000); vw_mkaddr(&REQ[1], &RLEN, "198.51.100.8", 4001);
-	vw_mkaddr(&REQ[2], &RLEN, "198.51.100.9", 4002); vw_mkaddr(&REQ[3], &RLEN, "198.51.100.10", 4003);
+	vw_mkaddr(&REQ[0], &RLENS[0], "198.51.100.7", 4000); vw_mkaddr(&REQ[1], &RLENS[1], "198.51.100.8", 4001);
+	vw_mkaddr6(&REQ[2], &RLENS[2], "2001:db8::9", 4002); vw_mkaddr(&REQ[3], &RLENS[3], "198.51.100.10", 4003);
 	vw_mkaddr(&LOCALDNS, &RLEN, "127.0.0.1", BINDPORT);
 	for (int r = 0; r < 3; r++) for (int id = 0; id < 4; id++) addl(L_Q, r, id, (r + id) & 1, "Q(%s,id%d,%s)", REQN[r], id, QN[(r + id) & 1].name);
 	for (int id = 0; id < 5; id++) addl(L_R, -1, id, 0, "R(id%d)", id);
